@@ -78,9 +78,13 @@ def _regen(bdir, gen, tool, src):
         cmd = ["bison", "-d", "-Wno-yacc", "-Wno-other", "-o", out, srcp]
     else:
         cmd = ["flex", "-o", out, srcp]
-    r = subprocess.run(cmd, stdout=subprocess.PIPE, stderr=subprocess.STDOUT, text=True)
+    r = subprocess.run(cmd, stdout=subprocess.PIPE, stderr=subprocess.STDOUT, text=True, cwd=gdir)
     if r.returncode != 0:
         raise BuildError("generator failed: %s\n%s" % (" ".join(cmd), r.stdout[-3000:]))
+    # the .l files say `%option outfile="lex.yy.c"`, which wins over -o: pick the file up from the working directory
+    alt = os.path.join(gdir, "lex.yy.c")
+    if tool == "flex" and os.path.exists(alt) and (not os.path.exists(out) or os.path.getmtime(alt) >= os.path.getmtime(out)):
+        os.replace(alt, out)
     return out
 
 
